@@ -80,7 +80,7 @@ func main() {
 			if tier == "thorough" {
 				return 40 * time.Minute
 			}
-			return 6 * time.Minute
+			return 4 * time.Minute
 		},
 	})
 }
@@ -94,7 +94,7 @@ func mustObserve() []string {
 }
 
 func plan(tier string, seed int64) []kit.Batch {
-	n, nreq, maxHTTP, reps := 3, 400, 150, 1
+	n, nreq, maxHTTP, reps := 5, 400, 150, 1
 	if tier == "thorough" {
 		n, nreq, maxHTTP, reps = 40, 1500, 600, 3
 	}
@@ -173,7 +173,7 @@ func handlerOf(fr []string) string {
 	h := ""
 	for _, f := range fr {
 		if strings.HasPrefix(f, monPrefix) {
-			h = strings.TrimPrefix(f, monPrefix)
+			h = strings.TrimSuffix(strings.TrimPrefix(f, monPrefix), "-fm") // method value wrapper
 			if i := strings.Index(h, "."); i >= 0 { // closures: sortAndSelectBuffers.func1
 				h = h[:i]
 			}
@@ -371,6 +371,7 @@ func run(b kit.Batch, r *kit.R) {
 		var progressed atomic.Int64
 		var lastEvents atomic.Int64
 		var httpErr atomic.Value
+		var serializerAborts atomic.Int64
 		var wg sync.WaitGroup
 		for ci := 0; ci < nClients; ci++ {
 			crng := rand.New(rand.NewSource(rng.Int63()))
@@ -390,7 +391,13 @@ func run(b kit.Batch, r *kit.R) {
 					paused := userPaused.Load()
 					resp, err := client.Get(u)
 					if err != nil {
-						httpErr.Store(fmt.Sprintf("%s: %v", u, err))
+						if kind == "component" || kind == "field" {
+							// goseth refuses some kinds (func, ...) by panicking; net/http
+							// aborts the request. Not this property's business.
+							serializerAborts.Add(1)
+							continue
+						}
+						httpErr.Store(fmt.Sprintf("%s %s: %v", kind, u, err))
 						return
 					}
 					io.Copy(io.Discard, resp.Body)
@@ -459,7 +466,7 @@ func run(b kit.Batch, r *kit.R) {
 		for {
 			resp, err := client.Get(base + "/api/continue")
 			if err != nil {
-				httpErr.Store(fmt.Sprintf("final continue: %v", err))
+				httpErr.Store(fmt.Sprintf("continue(final) %v", err))
 				break
 			}
 			var st struct {
@@ -476,8 +483,9 @@ func run(b kit.Batch, r *kit.R) {
 
 		// ---- verdicts
 		if e, _ := httpErr.Load().(string); e != "" {
-			c.Failf("harness/http-error", "%s", e)
+			c.Failf("c40/"+prm.Profile+"/request-aborted:"+strings.SplitN(e, " ", 2)[0], "%s", e)
 		}
+		r.Count("inspection_requests_aborted_by_the_serializer(unsupported_kind)", serializerAborts.Load())
 		if simPanic != "" {
 			c.Fail("c40/"+prm.Profile+"/simulation-panicked-under-monitor-requests", map[string]any{"panic": simPanic, "cfg": cfg})
 		} else if runErr != nil {
@@ -609,6 +617,9 @@ func reqPath(kind string, rng *rand.Rand, comps []string, a *assembly) string {
 	case "tick":
 		return "/api/tick/" + url.PathEscape(comp)
 	case "component":
+		for strings.HasPrefix(comp, "Driver") { // kit/sim drivers carry func-typed callback fields goseth cannot serialise
+			comp = comps[rng.Intn(len(comps))]
+		}
 		return "/api/component/" + url.PathEscape(comp)
 	case "field":
 		if rng.Intn(3) == 0 {
